@@ -162,6 +162,11 @@ func NewReporter(opts Options) (Reporter, error) {
 	if opts.MaxPacketSizeBytes <= 0 {
 		opts.MaxPacketSizeBytes = DefaultMaxPacketSize
 	}
+	// n.b. The transport refuses a message longer than thriftudp.MaxLength, so
+	//      a packet may not be filled beyond that.
+	if opts.MaxPacketSizeBytes > thriftudp.MaxLength {
+		opts.MaxPacketSizeBytes = thriftudp.MaxLength
+	}
 	if opts.HistogramBucketIDName == "" {
 		opts.HistogramBucketIDName = DefaultHistogramBucketIDName
 	}
